@@ -485,6 +485,12 @@ func (s *recordingSpan) End(options ...trace.SpanEndOption) {
 		s.mu.Unlock()
 		s.executionTracerTaskEnd()
 		s.mu.Lock()
+		// The lock was released: another goroutine may have ended the span
+		// in the meantime, it must not be ended (and exported) twice.
+		if !s.isRecording() {
+			s.mu.Unlock()
+			return
+		}
 	}
 
 	// Setting endTime to non-zero marks the span as ended and not recording.
